@@ -198,7 +198,8 @@ def handle (j : Json) : Json :=
     let cls := if outcome.startsWith "uncaught:" && hasBadnum then "stoi-escape" else "outcome:" ++ outcome
     Driver.verdict id false false ["alive"] cls
   else
-  let ops := jarr s "ops"
+  -- a background op ("bg") is the wrapped file op, performed some microseconds later by a helper thread
+  let ops := (jarr s "ops").map fun o => if jstr o "op" == "bg" then jobj o "do" else o
   let rc := (jarr t "rc").map asNat
   let initDir := parseDir (jobj s "init")
   let recreate := ops.any (fun o => jstr o "op" == "rmdir") || initDir.isNone
